@@ -352,6 +352,17 @@ func harnessAPI(e *Exec, g *G, fn *ssa.Function, args []Value) (Value, bool) {
 			e.Covered[lbl]++
 		}
 		return nil, true
+	case "envKeyOf":
+		x := args[0].(*Term)
+		idx := tt.IndexOf(x, tt.Str("="), tt.Int(0))
+		return tt.Ite(tt.Contains(x, tt.Str("=")), tt.SubStr(x, tt.Int(0), idx), x), true
+	case "envValOf":
+		x := args[0].(*Term)
+		idx := tt.IndexOf(x, tt.Str("="), tt.Int(0))
+		off := tt.IAdd(idx, tt.Int(1))
+		return tt.Ite(tt.Contains(x, tt.Str("=")), tt.SubStr(x, off, tt.ISub(tt.StrLen(x), off)), tt.Str("")), true
+	case "hasPrefixStr":
+		return tt.PrefixOf(args[1].(*Term), args[0].(*Term)), true
 	case "containsEq":
 		return tt.Contains(args[0].(*Term), tt.Str("=")), true
 	case "verifReach":
@@ -780,6 +791,18 @@ func init() {
 		}
 		if !n.IsConst() || sext64(n.U, 64) != 2 || !sep.IsConst() || sep.S == "" {
 			e.unsupported("strings.SplitN with symbolic arguments other than (s, const, 2)")
+		}
+		// s = a ++ sep ++ rest with a known not to contain sep: split syntactically
+		if s.Op == "str.++" && len(s.Args) >= 2 {
+			a, b := s.Args[0], s.Args[1]
+			aFree := (a.IsConst() && !strings.Contains(a.S, sep.S)) || e.pcSet[tt.Not(tt.Contains(a, sep))]
+			if !a.IsConst() && b.IsConst() && strings.HasPrefix(b.S, sep.S) && aFree {
+				rest := tt.Str(b.S[len(sep.S):])
+				for _, x := range s.Args[2:] {
+					rest = tt.Concat(rest, x)
+				}
+				return e.mkStrSlice([]*Term{a, rest}), true
+			}
 		}
 		if e.branch(tt.Contains(s, sep)) {
 			idx := tt.IndexOf(s, sep, tt.Int(0))
